@@ -50,6 +50,108 @@ theorem masked_id_inside (ri : ℝ) (ncp ncmar row col : ℕ) (v : ℝ) (hri : 0
   unfold pol2car
   rw [pupil_is_annulus ri hri, if_pos hin]; simp
 
+/-! ### round 3: the structure function of the code is Kolmogorov's; the Cartesian rendering of a separable polar function -/
+
+/-- the structure function REGENERATED from `stf_kolmogorov` is `6.8839 · r^(5/3)` : a change of the constant or of the
+exponent in the source breaks this theorem (the other theorems hold for any structure function) -/
+theorem stf_is_kolmogorov (r : ℝ) : Gen.kl_stf_kolmogorov (K := ℝ) r = 6.8839 * r ^ ((5 : ℝ) / 3) := by
+  real_unfold [Gen.kl_stf_kolmogorov] <;> norm_num
+
+/-- inside the table the closed azimuth is the table itself -/
+theorem wrapCol_inside {α : Type} (npp : ℕ) (pol : ℕ → ℕ → α) (a b : ℕ) (hb : b < npp) : wrapCol npp pol a b = pol a b := by
+  unfold wrapCol
+  rw [if_neg (by omega)]
+
+/-- order-1 `map_coordinates` of a separable table `R ⊗ A` (what `gkl_sfi` returns) is the product of the two
+one-dimensional interpolants: the rendering at a pixel is (linear interpolant of the radial samples at its `cr`)
+× (linear interpolant of the azimuthal samples at its `cp`) -/
+theorem bilinear_separable (R A : ℕ → ℝ) (a b : ℕ) (u v : ℝ) :
+    bilin (K := ℝ) (sfi R A) a b u v = lerp u (R a) (R (a + 1)) * lerp v (A b) (A (b + 1)) := by
+  real_unfold [bilin, lerp, sfi]
+  ring
+
+/-- the repaired `pol2car` closes the azimuth: in the last azimuthal cell (between sample `npp-1` and `2π`) the
+rendering interpolates between the LAST azimuthal sample and the FIRST one (before the repair it was held at the
+last sample: a seam along `φ = 0`) -/
+theorem wrap_closes_azimuth (R A : ℕ → ℝ) (npp a : ℕ) (hnpp : 0 < npp) (u v : ℝ) :
+    bilin (K := ℝ) (wrapCol npp (sfi R A)) a (npp - 1) u v
+      = lerp u (R a) (R (a + 1)) * lerp v (A (npp - 1)) (A 0) := by
+  have h1 : npp - 1 + 1 = npp := by omega
+  have h2 : npp - 1 ≠ npp := by omega
+  unfold bilin
+  rw [h1]
+  simp only [wrapCol, if_neg h2, if_true]
+  real_unfold [lerp, sfi]
+  ring
+
+/-- every other cell of the closed table is interpolated as before -/
+theorem wrap_other_cells (pol : ℕ → ℕ → ℝ) (npp a b : ℕ) (hb : b + 1 < npp) (u v : ℝ) :
+    bilin (K := ℝ) (wrapCol npp pol) a b u v = bilin (K := ℝ) pol a b u v := by
+  unfold bilin
+  rw [wrapCol_inside npp pol a b (by omega), wrapCol_inside npp pol a (b + 1) hb,
+    wrapCol_inside npp pol (a + 1) b (by omega), wrapCol_inside npp pol (a + 1) (b + 1) hb]
+
+/-- the azimuthal coordinate handed to `map_coordinates` stays inside the closed table `[0, npp]` -/
+theorem cpCoord_range (npp : ℕ) (hnpp : 1 ≤ npp) (phi : ℝ) :
+    0 < cpCoord (K := ℝ) npp phi ∧ cpCoord (K := ℝ) npp phi < npp := by
+  have h : (1 : ℝ) ≤ (npp : ℝ) := by exact_mod_cast hnpp
+  unfold cpCoord clip
+  have e1 : ((1e-3 : ℝ)) = 1 / 1000 := by norm_num
+  rw [e1]
+  split_ifs with h1 h2
+  · constructor <;> linarith
+  · constructor <;> linarith
+  · have h1' := not_le.1 h1
+    have h2' := not_le.1 h2
+    constructor <;> linarith
+
+/-! ### round 3: selection of the `nfunc` largest, the stop rule of the order loop -/
+
+/-- the functions returned are the largest of the orders that were computed: no flat index left out by
+`argsort(-evs)[0:nfunc]` has a larger variance than a returned one -/
+theorem selected_are_largest (nr nfunc : ℕ) (ev : ℕ → ℝ) (a : List ℕ)
+    (hsorted : a.Pairwise (fun x y => ev y ≤ ev x)) :
+    ∀ x ∈ oind nr nfunc a, ∀ y ∈ a.drop nfunc, ev y ≤ ev x := by
+  intro x hx y hy
+  have hx' : x ∈ a.take nfunc := (mem_expand nr _ x).1 (List.mem_of_mem_take hx)
+  rw [← List.take_append_drop nfunc a] at hsorted
+  exact (List.pairwise_append.1 hsorted).2.2 x hx' y hy
+
+/-- what the stop rule of the order loop establishes: `nus = t` is an order `1 ≤ t < nt` at which at least `nfunc`
+computed functions (orders ≥ 1 counted twice) have a variance larger than every variance of order `t`, and it is the
+FIRST such order.  Whether a LATER order holds a larger variance is not decided by the loop (oracle: the returned
+variances are compared with the spectrum of all orders) -/
+theorem stop_rule_count (nr nfunc nt t : ℕ) (ev : ℕ → ℕ → ℝ) (h : findNus nr nfunc nt ev = some t) :
+    1 ≤ t ∧ t < nt ∧ nfunc ≤ loopCount nr ev t (maxOf nr (ev t)) ∧
+      ∀ s, 1 ≤ s → s < t → loopCount nr ev s (maxOf nr (ev s)) < nfunc := by
+  unfold findNus at h
+  have hmem := List.mem_of_find?_eq_some h
+  have hp := List.find?_some h
+  rw [List.mem_range'_1] at hmem
+  refine ⟨hmem.1, by omega, by simpa using hp, ?_⟩
+  intro s hs1 hst
+  by_contra hcon
+  rw [List.find?_eq_some_iff_append] at h
+  obtain ⟨_, as, bs, hab, hall⟩ := h
+  have hs : s ∈ List.range' 1 (nt - 1) := by rw [List.mem_range'_1]; omega
+  rw [hab] at hs
+  have hsorted : (List.range' 1 (nt - 1)).Pairwise (· < ·) := List.pairwise_lt_range'
+  rw [hab] at hsorted
+  rcases List.mem_append.1 hs with hs | hs
+  · have := hall s hs
+    simp at this
+    omega
+  · rcases List.mem_cons.1 hs with hs | hs
+    · omega
+    · have := (List.pairwise_append.1 hsorted).2.1
+      have := List.rel_of_pairwise_cons this hs
+      omega
+
+/-- non-vacuity of `stop_rule_count` and the loop on a concrete table: two radial points, variances
+order 0: (5, 0), order 1: (4, 1), order 2: (2, 0.5); three functions requested: after order 1 only 5 exceeds 4 (count 1),
+after order 2: 5, 4, 4 exceed 2 (count 1·1 + 2·1 = 3) -/
+example : findNus (K := ℕ) 2 3 4 (fun t k => [[5, 0], [4, 1], [2, 0]].getD t [] |>.getD k 0) = some 2 := by decide
+
 /-! ### returned variances are in non-increasing order; both members of a pair carry the same variance -/
 
 /-- `evals = evs[oind]` is non-increasing whenever `a` orders the flat eigenvalue table non-increasingly
